@@ -113,6 +113,43 @@ def task(W, payload):
                         fail(out, f"vectorised evaluation of {name} differs from scalar evaluation", "c16", payload, fn=name, points=[q(v) for v in a])
                 except BaseException as e:
                     fail(out, f"vectorised evaluation of {name} raised", "c16", payload, err=str(e)[:200])
+        # (i) the sigmoidal interpolant for a curvature close to 0 is the linear interpolant (Props/C16 `norm_sigmoid_limit`); the formula divides two
+        # quantities of the size of the curvature, so the comparison allows 1e-6
+        if n >= 2 and axis_kind == "time":
+            for cv in (1e-6, 3e-7):
+                f_ = stf.get_sigmoidal_interpolation_function(np.array([float(v) for v in pts]), np.array([float(v) for v in ys[:n]]), curvature=cv)
+                call = stf.get_time_callable(f_, jit_compile=False)
+                for x in xs_eval:
+                    try:
+                        got = float(np.asarray(call(float(x), {})))
+                    except BaseException as e:
+                        fail(out, f"sigmoidal interpolation with curvature {cv} raised", "c16", payload, x=q(x), err=str(e)[:200]); break
+                    ln = L.send({"op": "timefn", "fn": "lin", "x": q(x), "a": [q(v) for v in pts], "b": [q(v) for v in ys[:n]]})
+                    out["evals"] += 1
+                    if ln.get("ok") and not (abs(got - float(ln["v"])) <= 1e-6 * max(1.0, abs(float(ln["v"])))):
+                        fail(out, "the sigmoidal interpolant with a curvature close to 0 is not (close to) the linear interpolant", "c16", payload, curvature=cv, x=q(x),
+                             got=got, linear=float(ln["v"]), points=[q(v) for v in pts], values=[q(v) for v in ys[:n]])
+                        break
+                out["cases"].append(f"sig_small_curvature:{idxs}:{cv}")
+        # (ii) piecewise-constant function whose values are ROWS (a time-varying vector such as a row of contact rates): the row of the interval
+        if axis_kind == "time":
+            rows = [[float(v), 2 * float(v) + 1.0, -float(v)] for v in ys]
+            f_ = stf.get_piecewise_function(np.array([float(v) for v in pts]), np.array(rows))
+            call = stf.get_time_callable(f_, jit_compile=False)
+            for x in xs_eval:
+                try:
+                    got = np.asarray(call(float(x), {}), dtype=float).reshape(-1)
+                except BaseException as e:
+                    fail(out, "piecewise function with row values raised", "c16", payload, x=q(x), err=str(e)[:200]); break
+                ln = L.send({"op": "timefn", "fn": "pw", "x": q(x), "a": [q(v) for v in pts], "b": [q(v) for v in ys]})
+                out["evals"] += 1
+                if ln.get("ok"):
+                    v_ = float(ln["v"]); want = [v_, 2 * v_ + 1.0, -v_]
+                    if got.shape != (3,) or not vec_close(list(got), want, 1e-12):
+                        fail(out, "piecewise function with row values does not return the row of the interval containing x", "c16", payload, x=q(x), got=got.tolist(), want=want,
+                             points=[q(v) for v in pts])
+                        break
+            out["cases"].append(f"pw_rows:{idxs}")
     if payload.get("rolling"):
         # long point sets (40 and 70 points: "any length"), evaluated at every point and half-way between neighbours
         for n in (40, 70):
